@@ -4,8 +4,8 @@
 (* and the old entries' weights over all occurrences (checked by TLC on every generated case);       *)
 (* records whose weight count does not match the word length are rejected.                          *)
 EXTENDS VpModel, Json
-CONSTANTS OldSel, NewSel, TextAlpha, MaxText, BadCounts
-VARIABLES old, new, phase
+CONSTANTS OldSel, NewSel, TextAlpha, MaxText, BadCounts, NoCngSet
+VARIABLES old, new, phase, nocng
 
 ReplaceDict(m, d) == [m EXCEPT !.dict = d]
 
@@ -20,10 +20,12 @@ Base == [bias |-> -4, cw |-> 2, tw |-> 1,
          tng |-> << [ng |-> <<2>>, w |-> <<-3, 2>>] >>, dict |-> <<>>,
          tags |-> << [token |-> <<97>>, cats |-> << <<<<65>>, <<66>>>> >>, cng |-> <<>>, tng |-> <<>>, bias |-> <<1, 2>>] >>]
 
-Init == old \in OldSel /\ new \in NewSel /\ phase = 0
-Next == phase = 0 /\ phase' = 1 /\ UNCHANGED <<old, new>>
+Init == old \in OldSel /\ new \in NewSel /\ nocng \in NoCngSet /\ phase = 0
+Next == phase = 0 /\ phase' = 1 /\ UNCHANGED <<old, new, nocng>>
 
-M0 == ReplaceDict(Base, DictOf(old, 1))
+\* nocng: a model whose ONLY character-level entries are dictionary words (no character n-grams, no tag models)
+Base2 == IF nocng THEN [Base EXCEPT !.cng = <<>>, !.tags = <<>>] ELSE Base
+M0 == ReplaceDict(Base2, DictOf(old, 1))
 NewDict == DictOf(new, 2)
 M1 == ReplaceDict(M0, NewDict)
 Texts == SetToSeq(SeqsOf(TextAlpha, 1, MaxText))
